@@ -1,4 +1,26 @@
-/- driver operations of C06 (stub: no model yet) -/
+import EvoModel.Model.TextFormats
+import EvoModel.Model.Json
+import EvoModel.Drv.C07
+/-! driver operations of C06: those of C07 (`rne`, `dec`, `num`, `tok`, `tum`, `kitti`, `bag`) plus
+  `esc hex` → hex of the `json.dumps` string content;  `unesc hex` → hex of the decoded string | `E_FORMAT`;
+  `tokrows hex k x1 … xk` → `OK` | `BAD i` (every token of the written text vs. its double) -/
 namespace Evo.Drv.C06
-def handle (_op : String) (_args : List String) : Option String := none
+open Evo Evo.Text
+
+def handle (op : String) (args : List String) : Option String :=
+  match op, args with
+  | "esc", [h] => do
+      let s ← Evo.Drv.C07.unhex h
+      some (Evo.Drv.C07.tohex (Evo.Json.escape s))
+  | "unesc", [h] => do
+      let s ← Evo.Drv.C07.unhex h
+      some (match Evo.Json.unescape s with
+        | none => "E_FORMAT"
+        | some r => Evo.Drv.C07.tohex r)
+  | "tokrows", h :: rest => do
+      let s ← Evo.Drv.C07.unhex h
+      let (xs, _) ← readRatList rest
+      some (match checkTokens s xs with | none => "OK" | some i => s!"BAD {i}")
+  | _, _ => Evo.Drv.C07.handle op args
+
 end Evo.Drv.C06
